@@ -56,6 +56,15 @@ func (c *handClock) channel() chan time.Time {
 	return c.ch
 }
 
+// c12ValueClock is a Clock implemented on a field-less struct VALUE; it forwards to the hand-driven clock of the
+// case that is running (cases run one at a time in a process).
+type c12ValueClock struct{}
+
+var c12CurrentClock *handClock
+
+func (c12ValueClock) Now() time.Time                         { return c12CurrentClock.Now() }
+func (c12ValueClock) NewTicker(d time.Duration) *time.Ticker { return c12CurrentClock.NewTicker(d) }
+
 // opSink records the sequence of Write/Sync calls it receives.
 type opSink struct {
 	mu      sync.Mutex
@@ -143,7 +152,14 @@ func propC12Sequential(t *rapid.T) {
 	size := rapid.OneOf(rapid.IntRange(1, 64), rapid.SampledFrom([]int{1, 2, 16, 64, 4096}), rapid.SampledFrom([]int{4095, 4097, 5000, 8191, 10000})).Draw(t, "size")
 	clk := &handClock{}
 	sink := &opSink{}
-	bws := &zapcore.BufferedWriteSyncer{WS: sink, Size: size, FlushInterval: time.Duration(rapid.IntRange(0, 3).Draw(t, "flushInterval")) * time.Second, Clock: clk}
+	// the clock may be a VALUE of a struct type without fields (its zero value is the only value it has, like
+	// zap's own system clock): as good a Clock as a pointer
+	var clock zapcore.Clock = clk
+	if rapid.IntRange(0, 3).Draw(t, "valueTypedClock") == 0 {
+		c12CurrentClock = clk
+		clock = c12ValueClock{}
+	}
+	bws := &zapcore.BufferedWriteSyncer{WS: sink, Size: size, FlushInterval: time.Duration(rapid.IntRange(0, 3).Draw(t, "flushInterval")) * time.Second, Clock: clock}
 	var accepted [][]byte
 	acceptedBytes := 0
 	boundaries := map[int]bool{0: true}
@@ -331,6 +347,20 @@ func propC12Sequential(t *rapid.T) {
 	}
 	if clk.tickers > 1 {
 		fail("%d tickers were created", clk.tickers)
+	}
+	if initialized {
+		// the flush loop ticks at the configured interval, or every 30 seconds when none is configured - whichever
+		// clock supplies the ticker
+		want := bws.FlushInterval
+		if want <= 0 {
+			want = 30 * time.Second
+		}
+		clk.mu.Lock()
+		got, n := clk.dur, clk.tickers
+		clk.mu.Unlock()
+		if n != 1 || got != want {
+			fail("the clock was asked for %d ticker(s), the last with interval %v; want one ticker with interval %v", n, got, want)
+		}
 	}
 	nt := sawNoFit && sawLarge
 	var labels []string
